@@ -605,6 +605,32 @@ pub fn run(ctx: &Ctx) -> Report {
         }
       }
     }
+    // every card of every extension header misspelt, then blanked: a keyword a reader requires must be missed
+    for (name, base) in &docs {
+      if base.len() > 16_000 {
+        continue;
+      }
+      let cards = find_cards(base);
+      let mut in_ext = false;
+      for (off, key) in &cards {
+        let kt = key.trim().to_string();
+        if kt == "XTENSION" {
+          in_ext = true;
+          continue;
+        }
+        if !in_ext || kt.is_empty() || kt == "END" {
+          continue;
+        }
+        let mut d = base.clone();
+        d[*off] = b'Z';
+        cases.push((name.clone(), format!("card {} misspelt (sweep)", kt), d));
+        let mut d2 = base.clone();
+        for b in d2[*off..*off + 80].iter_mut() {
+          *b = b' ';
+        }
+        cases.push((name.clone(), format!("card {} blanked (sweep)", kt), d2));
+      }
+    }
     // data-value sweep on the valued maps: every one of the first 8-byte (and 4-byte) words of the data set
     // to the special binary64 / binary32 values (NaNs of both signs and payloads, infinities, negative,
     // -0, subnormal, largest finite) and to integer extremes: the values feed sorts, sums and subdivisions
